@@ -8,6 +8,35 @@ import numpy as np
 from . import concrete as C
 
 
+def _map_arrays(x, f, counter):
+    if isinstance(x, np.ndarray):
+        if x.ndim >= 2 and min(x.shape) > 1:
+            counter[0] += 1
+            return f(x, counter[0])
+        return x
+    if isinstance(x, tuple):
+        return tuple(_map_arrays(v, f, counter) for v in x)
+    if isinstance(x, list):
+        return [_map_arrays(v, f, counter) for v in x]
+    if isinstance(x, dict):
+        return {k: _map_arrays(v, f, counter) for k, v in x.items()}
+    return x
+
+
+def layout_variants(args, kwargs):
+    """The same VALUES in other memory layouts (Fortran order for every >= 2-D array; for every other one only):
+    a contract speaks about values, so it must hold for them too (catches order='K'/'A' flattening, .flat, strides)."""
+    out = []
+    for mode in ("all", "mixed"):
+        n = [0]
+        f = (lambda x, k: np.asfortranarray(x)) if mode == "all" else (lambda x, k: np.asfortranarray(x) if k % 2 == 0 else x)
+        va, vk = _map_arrays(args, f, n), _map_arrays(kwargs, f, n)
+        if n[0] == 0 or (mode == "mixed" and n[0] < 2):
+            continue
+        out.append((va, vk))
+    return out
+
+
 def run_samplers(keys, tier, seed, limit=None):
     from .contract import REGISTRY
 
@@ -29,6 +58,14 @@ def run_samplers(keys, tier, seed, limit=None):
         except Exception as e:  # a sampler that no longer fits the (refactored) code: skip this function, say so
             per[key] = "skipped: sampler failed (%s: %s)" % (type(e).__name__, str(e)[:120])
             continue
+        if getattr(K, "layout_variants", True):
+            extra = []
+            for item in items:
+                try:
+                    extra += [(va, vk) for va, vk in layout_variants(item[0], item[1])]
+                except Exception:
+                    pass
+            items = items + extra
         for item in items:
             args, kwargs = item[0], item[1]
             try:
